@@ -83,12 +83,16 @@ func (c *ConnectorOrchestrator) Create(
 	}
 	r.Append(func() error { return c.connectors.Delete(ctx, conn.ID, c.connectorPlugins) })
 
+	plUpdatedAt := pl.UpdatedAt
 	_, err = c.pipelines.AddConnector(ctx, pl.ID, conn.ID)
 	if err != nil {
 		return nil, cerrors.Errorf("couldn't add connector %v to pipeline %v: %w", conn.ID, pl.ID, err)
 	}
 	r.Append(func() error {
-		_, err := c.pipelines.RemoveConnector(ctx, pl.ID, conn.ID)
+		restored, err := c.pipelines.RemoveConnector(ctx, pl.ID, conn.ID)
+		if err == nil {
+			restored.UpdatedAt = plUpdatedAt // the pipeline was not modified after all
+		}
 		return err
 	})
 
@@ -212,12 +216,16 @@ func (c *ConnectorOrchestrator) Update(ctx context.Context, id string, plugin st
 
 	oldPlugin := conn.Plugin
 	oldConfig := conn.Config
+	oldUpdatedAt := conn.UpdatedAt
 	conn, err = c.connectors.Update(ctx, id, plugin, config)
 	if err != nil {
 		return nil, err
 	}
 	r.Append(func() error {
-		_, err = c.connectors.Update(ctx, id, oldPlugin, oldConfig)
+		restored, err := c.connectors.Update(ctx, id, oldPlugin, oldConfig)
+		if err == nil {
+			restored.UpdatedAt = oldUpdatedAt // the connector was not modified after all
+		}
 		return err
 	})
 	err = txn.Commit()
